@@ -63,3 +63,159 @@ def run_wntr(w, wn, **kw):
         warnings.simplefilter("always")
         res = sim.run_sim(**kw)
     return res, [str(x.message) for x in wlist]
+
+
+# ------------------------------------------------------------------ general networks (netgen scenarios)
+def build(w, s):
+    """netgen scenario dict -> WaterNetworkModel through the public API"""
+    wn = w.network.WaterNetworkModel()
+    o = wn.options
+    o.time.hydraulic_timestep = s["H"]
+    o.time.pattern_timestep = s["Pat"]
+    o.time.pattern_start = s["PatStart"]
+    o.time.report_timestep = "ALL" if s.get("all", True) else s["H"]
+    o.time.rule_timestep = s.get("Rs", 360)
+    o.time.duration = s["Dur"]
+    o.time.start_clocktime = s.get("Start", 0)
+    o.hydraulic.demand_multiplier = s["DM"]
+    o.hydraulic.demand_model = s["mode"]
+    o.hydraulic.minimum_pressure = s["pmin"]
+    o.hydraulic.required_pressure = s["preq"]
+    o.hydraulic.pressure_exponent = s["pexp"][0] / s["pexp"][1]
+    for name, mult in s["patterns"].items():
+        wn.add_pattern(name, list(mult))
+    for n in s["nodes"]:
+        if n["type"] == "R":
+            wn.add_reservoir(n["name"], base_head=n["head"], head_pattern=n["pat"] or None)
+        elif n["type"] == "T":
+            vc = None
+            if n["vcurve"]:
+                vc = n["name"] + "_vol"
+                wn.add_curve(vc, "VOLUME", [tuple(p) for p in n["vcurve"]])
+            wn.add_tank(n["name"], elevation=n["elev"], init_level=n["init"], min_level=n["minl"],
+                        max_level=n["maxl"], diameter=n["diam"], min_vol=0.0, vol_curve=vc)
+        else:
+            d = n["dem"]
+            wn.add_junction(n["name"], base_demand=d[0]["base"] if d else 0.0,
+                            demand_pattern=(d[0]["pat"] or None) if d else None, elevation=n["elev"])
+            j = wn.get_node(n["name"])
+            if not d:
+                del j.demand_timeseries_list[:]
+            for k, e in enumerate(d[1:]):
+                j.add_demand(e["base"], e["pat"] or None, category="cat%d" % (k + 1))
+            if n.get("has_pdd"):
+                j.minimum_pressure = n["pmin"]
+                j.required_pressure = n["preq"]
+                j.pressure_exponent = n["pexp"][0] / n["pexp"][1]
+    st = {0: "CLOSED", 1: "OPEN", 2: "ACTIVE"}
+    for l in s["links"]:
+        t = l["type"]
+        if t == "pipe":
+            wn.add_pipe(l["name"], l["a"], l["b"], length=l["len"], diameter=l["diam"], roughness=l["rough"],
+                        minor_loss=l["minor"], initial_status=st[l["init"]], check_valve=l["cv"])
+        elif t == "headpump":
+            cn = l["name"] + "_curve"
+            wn.add_curve(cn, "HEAD", [tuple(p) for p in l["curve"]])
+            wn.add_pump(l["name"], l["a"], l["b"], pump_type="HEAD", pump_parameter=cn, initial_status=st[l["init"]])
+        elif t == "powerpump":
+            wn.add_pump(l["name"], l["a"], l["b"], pump_type="POWER", pump_parameter=l["power"],
+                        initial_status=st[l["init"]])
+        else:
+            wn.add_valve(l["name"], l["a"], l["b"], diameter=l["diam"], valve_type=t, minor_loss=l["minor"],
+                         initial_setting=l["setting"], initial_status=st[l["init"]])
+    for n in s["nodes"]:
+        lk = n.get("leak")
+        if lk and lk["on"]:
+            wn.get_node(n["name"]).add_leak(wn, area=lk["area"], discharge_coeff=lk["cd"],
+                                            start_time=lk["start"] if lk["start"] >= 0 else None,
+                                            end_time=lk["end"] if lk["end"] >= 0 else None)
+    attach_controls(w, wn, s, lambda k: wn.get_link(s["links"][k - 1]["name"]))
+    return wn
+
+
+def scenario_certs(s):
+    """witnesses for the scenario-level rational powers (verified, not trusted, by the spec)"""
+    for l in s["links"]:
+        if l["type"] == "pipe":
+            cpow = l["rough"] ** 1.852
+            dpow = l["diam"] ** 4.871
+            k = 10.667 * l["len"] / (cpow * dpow)
+            l["cert"] = {"cpow": cpow, "dpow": dpow, "k": k, "sqrtk": k ** 0.5}
+        elif l["type"] == "headpump":
+            e = l["cp"] / l["cq"]
+            l["cert"] = {"qpows": [p[0] ** e if p[0] > 0 else 0.0 for p in l["curve"]]}
+
+
+def rows_of(s, res):
+    """SimulationResults -> list of row dicts with per-row witnesses"""
+    node, link = res.node, res.link
+    rows = []
+    times = [int(t) for t in node["head"].index]
+    pdd = {n["name"]: n for n in s["nodes"] if n["type"] == "J"} if s["mode"] == "PDD" else {}
+    for i, t in enumerate(times):
+        r = {"t": t, "head": {}, "press": {}, "dem": {}, "leak": {}, "flow": {}, "status": {}, "setting": {}, "cert": {}}
+        for n in s["nodes"]:
+            nm = n["name"]
+            r["head"][nm] = float(node["head"][nm].iloc[i])
+            r["press"][nm] = float(node["pressure"][nm].iloc[i])
+            r["dem"][nm] = float(node["demand"][nm].iloc[i])
+            r["leak"][nm] = float(node["leak_demand"][nm].iloc[i])
+            if nm in pdd:
+                pmin, preq, pe = (n["pmin"], n["preq"], n["pexp"]) if n["has_pdd"] else (s["pmin"], s["preq"], s["pexp"])
+                x = (r["press"][nm] - pmin) / (preq - pmin)
+                r["cert"][nm] = {"x": x if x > 0 else 0.0, "xpow": x ** (pe[0] / pe[1]) if x > 0 else 0.0}
+        for l in s["links"]:
+            nm = l["name"]
+            q = float(link["flowrate"][nm].iloc[i])
+            r["flow"][nm] = q
+            r["status"][nm] = int(link["status"][nm].iloc[i])
+            r["setting"][nm] = float(link["setting"][nm].iloc[i])
+            if l["type"] == "pipe":
+                r["cert"][nm] = {"qpow": abs(q) ** 1.852}
+            elif l["type"] == "headpump":
+                r["cert"][nm] = {"qpow": q ** (l["cp"] / l["cq"]) if q > 0 else 0.0}
+        rows.append(r)
+    return rows
+
+
+def encode(x):
+    """recursively turn floats into Dec.tla number records (ints, bools and strings stay)"""
+    if isinstance(x, bool) or isinstance(x, int) or isinstance(x, str):
+        return x
+    if isinstance(x, float):
+        return common.num(x)
+    if isinstance(x, dict):
+        return {k: encode(v) for k, v in x.items()}
+    if isinstance(x, (list, tuple)):
+        return [encode(v) for v in x]
+    raise TypeError(type(x))
+
+
+INT_KEYS = {"t", "H", "Pat", "PatStart", "Dur", "Rs", "Start", "Rep", "thr", "rep", "link", "val", "prio", "start", "end",
+            "cp", "cq", "init", "id", "status"}
+
+
+def encode_trace(s, rows, props):
+    """scenario + rows -> JSON-able trace for ObsTrace.tla (floats as Dec records; integer-valued keys stay ints)"""
+    def enc(x, key=None):
+        if isinstance(x, bool) or isinstance(x, str):
+            return x
+        if isinstance(x, int):
+            return x if key in INT_KEYS or key is None else common.num(x)
+        if isinstance(x, float):
+            return common.num(x)
+        if isinstance(x, dict):
+            if key == "status":
+                return dict(x)
+            return {k: enc(v, k) for k, v in x.items()}
+        if isinstance(x, (list, tuple)):
+            if key in ("pexp", "props"):
+                return list(x)
+            return [enc(v, key if key in ("init",) else "_") for v in x]
+        raise TypeError(type(x))
+    sc = enc({k: v for k, v in s.items() if k not in ("rules",)})
+    sc["props"] = list(props)
+    # TLC cannot read empty JSON objects as records reliably: make sure patterns has at least one key
+    if not sc["patterns"]:
+        sc["patterns"] = {"_none": []}
+    return {"scn": sc, "rows": [enc(r) for r in rows]}
